@@ -12,6 +12,7 @@ import (
 	"io"
 	"net"
 	"sync"
+	"time"
 
 	"github.com/ishidawataru/sctp"
 )
@@ -53,7 +54,10 @@ type Assoc struct {
 	Reads     int
 	// WriteScript, if set, scripts SCTPWrite outcomes: bytes accepted and error.
 	WriteScript func(seq int, b []byte) (int, error)
-	wseq        int
+	// WriteDelay, if set (before the association is used), makes SCTPWrite block for the
+	// returned duration before it takes effect.
+	WriteDelay func(b []byte) time.Duration
+	wseq       int
 	// Remote, if set, is what RemoteAddr reports (several associations in one scenario).
 	Remote string
 }
@@ -110,6 +114,12 @@ func (a *Assoc) SCTPRead(b []byte) (int, *sctp.SndRcvInfo, error) {
 }
 
 func (a *Assoc) SCTPWrite(b []byte, info *sctp.SndRcvInfo) (int, error) {
+	if a.WriteDelay != nil {
+		// a send buffer that is full for a while: the call blocks (outside the backend's lock)
+		if d := a.WriteDelay(b); d > 0 {
+			time.Sleep(d)
+		}
+	}
 	a.mu.Lock()
 	defer a.mu.Unlock()
 	if a.closed {
@@ -175,7 +185,7 @@ func (a *Assoc) Pending() int {
 	return len(a.in)
 }
 
-func (a *Assoc) LocalAddr() net.Addr  { return addr("10.1.2.3:3868") }
+func (a *Assoc) LocalAddr() net.Addr { return addr("10.1.2.3:3868") }
 func (a *Assoc) RemoteAddr() net.Addr {
 	if a.Remote != "" {
 		return addr(a.Remote)
